@@ -1,5 +1,8 @@
 use std::error::Error;
+#[cfg(not(brc20_prog_verif))]
 use std::sync::{RwLock, RwLockReadGuard};
+#[cfg(brc20_prog_verif)]
+use crate::verif::sync::{RwLock, RwLockReadGuard};
 
 pub struct SharedData<T> {
     inner: RwLock<T>,
@@ -25,6 +28,7 @@ impl<T> SharedData<T> {
     ///
     /// In case this is needed to be stored and/or used outside of the function,
     /// it is recommended to use the `read_fn` method instead.
+    #[cfg_attr(brc20_prog_verif, track_caller)]
     pub fn read(&'_ self) -> RwLockReadGuard<'_, T> {
         match self.inner.read() {
             Ok(guard) => guard,
@@ -34,6 +38,7 @@ impl<T> SharedData<T> {
 
     /// This method allows you to read from the inner data and handle errors.
     /// It returns a result of the operation.
+    #[cfg_attr(brc20_prog_verif, track_caller)]
     pub fn read_fn<F, R>(&self, f: F) -> Result<R, Box<dyn Error>>
     where
         F: FnOnce(&T) -> Result<R, Box<dyn Error>>,
@@ -46,6 +51,7 @@ impl<T> SharedData<T> {
     }
 
     /// This method allows you to read from the inner data and handle errors.
+    #[cfg_attr(brc20_prog_verif, track_caller)]
     pub fn write_fn<F, R>(&self, f: F) -> Result<R, Box<dyn Error>>
     where
         F: FnOnce(&mut T) -> Result<R, Box<dyn Error>>,
@@ -55,6 +61,7 @@ impl<T> SharedData<T> {
     }
 
     /// This method allows you to write to the inner data without checking for errors.
+    #[cfg_attr(brc20_prog_verif, track_caller)]
     pub fn write_fn_unchecked<F>(&self, f: F)
     where
         F: FnOnce(&mut T) -> (),
